@@ -277,7 +277,7 @@ DoVisit(ev) ==
       full == IF ev.dir = "asc" THEN AscFrom(items, ev.t) ELSE DescBelow(items, ev.t)
       want == Prefix(full, ev.stop)
   IN Stay /\ Report(
-       ErrChk(ev, FALSE)
+       ErrChkC(ev, FALSE, CatFor(ev.s, "C06:visit-error"))
        \o (IF ev.err THEN <<>>
            ELSE Chk(SameItems(want, ev.res, ev.wv), CatFor(ev.s, "C06:visit-sequence"), want, ev.res)
                 \o Chk(\A i \in DOMAIN ev.res :
@@ -428,12 +428,19 @@ DoRefs(ev) ==
 
 \* After the first mismatch of a history the model and the implementation may
 \* have diverged: the rest of that history is skipped (up to the next Reset).
+OnColl(ev) == ev.e \in {"Set", "Del", "Get", "GetVal", "Min", "Max", "Exist", "Totals", "Len", "Visit", "Enum", "CollWrite", "Evict"}
+
 Step ==
   /\ l <= Len(Trace)
   /\ l' = l + 1
   /\ LET ev == Trace[l] IN
      CASE ev.e = "Reset" -> DoReset(ev)
        [] bad # <<>> -> UNCHANGED <<stores, files, bad>>
+       \* the driver takes collection names from the library: a call on a name the
+       \* model's store does not have means the library lists a wrong name
+       [] OnColl(ev) /\ ~HasColl(ev.s, ev.c) ->
+            Stay /\ Report(Chk(FALSE, IF ev.s \in DOMAIN stores /\ stores[ev.s].ro THEN "C04:names" ELSE "C12:names",
+                               IF IsOpen(ev.s) THEN Names(ev.s) ELSE "store not open", ev.c))
        [] ev.e = "NewFile" -> DoNewFile(ev)
        [] ev.e = "NewMem" -> DoNewMem(ev)
        [] ev.e = "Open" -> DoOpen(ev)
